@@ -7,6 +7,7 @@ R-TFLAGCOL   radix typing of YYYYJJJ / HHMMSS values in every decoder/encoder of
 R-TZDROP     inverse mapping: tzinfo is dropped only after astimezone().
 """
 import ast
+import re
 import calendar
 
 from ..engine import AnalysisError, dotted, iter_stmts, norm, walk_expr, const_str, kw
@@ -80,6 +81,65 @@ def run(ctx):
         else:
             ctx.violation(Finding('R-UNITTABLE', FILES, q, "'years': %s" % rows['years'], "years row inconsistent with days row",
                                   lineno=st.lineno), oid='years')
+    # ---- R-REFSHIFT: in the 365/366-day branch the reference date enters as its (positive) offset into its year
+    ctx.rule('R-REFSHIFT', 'getTimes, fixed-length calendars: the shift added to the elapsed fraction is (reference date in the model year - 1 January of that year) / year length')
+    from .. import paths as _paths
+    frac = [st for st in iter_stmts(fn.body) if isinstance(st, ast.Assign) and isinstance(st.value, ast.BinOp) and isinstance(st.value.op, ast.Add)
+            and any(isinstance(x, ast.BinOp) and isinstance(x.op, ast.Div) and any(n is table for n in ast.walk(x.right)) or
+                    (isinstance(x, ast.BinOp) and isinstance(x.op, ast.Div) and isinstance(x.right, ast.Name)) for x in (st.value.left, st.value.right))]
+    frac = [st for st in frac if re.search(r'\btime\b', norm(st.value))]
+    if not frac:
+        ctx.undec('R-REFSHIFT', 'shift', where, 'statement adding the reference shift to time / <unit denominator> not found')
+    else:
+        fst = frac[0]
+        # the values the shift takes on the paths to that statement
+        blk = getattr(fst, '_parent', None)
+        body = blk.body if fst in getattr(blk, 'body', []) else (blk.orelse if fst in getattr(blk, 'orelse', []) else fn.body)
+        stop = body.index(fst)
+        forms = {}
+        for pth in _paths.enumerate_paths(body[:stop + 1], relevant=_paths.relevance(body[:stop + 1], [fst])):
+            if pth.exit[0] == 'raise':
+                continue
+            res = _paths.expand(pth, keep=('yearseconds', 'yeardays', 'time', 'refdate', 'yearlike'))
+            if not res.feasible:
+                continue
+            new = [n2 for s2, n2 in res.stmts if s2 is fst]
+            if not new:
+                continue
+            v = new[0].value
+            sh = v.right if not re.search(r'\btime\b', norm(v.right)) else v.left
+            forms[norm(sh)] = sh
+        bad = None
+        nshift = 0
+        for txt, sh in sorted(forms.items()):
+            if isinstance(sh, ast.Constant) and sh.value == 0:
+                continue
+            nshift += 1
+            # (A - B).total_seconds() / yearseconds   (or the timedelta division form)
+            sub = [x for x in ast.walk(sh) if isinstance(x, ast.BinOp) and isinstance(x.op, ast.Sub)]
+            if not sub:
+                bad = bad or (txt, 'not a difference of two dates')
+                continue
+            a_, b_ = norm(sub[0].left), norm(sub[0].right)
+            a_ref = 'refdate.month' in a_ and 'refdate.day' in a_
+            b_ref = 'refdate.month' in b_ and 'refdate.day' in b_
+            a_jan = bool(re.search(r'datetime\(yearlike, 1, 1', a_))
+            b_jan = bool(re.search(r'datetime\(yearlike, 1, 1', b_))
+            if a_ref and b_jan:
+                continue
+            if a_jan and b_ref:
+                bad = (txt, 'reversed')
+            else:
+                bad = bad or (txt, 'operands not recognised')
+        if bad and bad[1] == 'reversed':
+            ctx.violation(Finding('R-REFSHIFT', FILES, q, fst, 'the reference shift is (1 January - reference date) / year: offset 0 of "days since 1996-02-28" in a 365/366-day calendar is decoded '
+                                  'as a date 58 days *before* 1 January (1995-11-04) instead of the reference date; every time of such a variable is off by twice the distance of the reference from 1 January'))
+        elif bad:
+            ctx.undec('R-REFSHIFT', 'shift', where, 'shift %s: %s' % (bad[0][:60], bad[1]))
+        elif nshift:
+            ctx.ok('R-REFSHIFT', 'shift', where, '(reference date in the model year - 1 January) / year length on %d path(s); 0 for a 1 January reference' % nshift)
+        else:
+            ctx.undec('R-REFSHIFT', 'shift', where, 'no non-zero shift found')
     # ---- R-CALTABLE
     cal = None
     for n in walk_expr(fn):
